@@ -40,6 +40,8 @@ CALLEE_CANON = {
     "_OS_expand_memory": "os_expand", "_VLO_expand_memory": "vlo_expand",
     "llvm.memcpy.p0i8.p0i8.i64": "memcpy", "llvm.memset.p0i8.i64": "memset",
     "top_length": "os_top_length", "top_shorten": "os_top_shorten", "length": "vlo_length", "shorten": "vlo_shorten",
+    "hash_table_elements_number": "elements_number", "hash_table_size": "table_size", "size": "table_size",
+    "hash_table_collisions": "collisions", "get_collisions": "collisions",
 }
 
 
